@@ -390,9 +390,28 @@ pub fn sweep_searches(
         "enum",
         json!({"patterns": ctx.pats_json(), "note": "several configurations; see cfg list of the sweep"}),
     );
+    // the reference machine of the leftmost product exploration (E7) is validated against the
+    // brute-force oracle on every case of the leftmost sweeps
+    let mut lmrefs: Vec<(Kind, bool, crate::lm::LmRef)> = Vec::new();
+    for b in &built {
+        let ic = b.cfg.variant == Variant::Char;
+        if b.cfg.kind != Kind::Std && !lmrefs.iter().any(|x| x.0 == b.cfg.kind && x.1 == ic) {
+            lmrefs.push((b.cfg.kind, ic, crate::lm::LmRef::new(b.cfg.kind, &ctx.pats, ic)));
+        }
+    }
     ctx.for_each_hay(|hay| {
         let occ = oracle::occurrences(&ctx.pats, hay);
         acc.evals += 1;
+        for (k, ic, rf) in &lmrefs {
+            let lab = oracle::labels_of(*ic, hay);
+            let got = rf.ref_scan(&lab);
+            let exp = expected_occ(Method::Lm, *k, &occ);
+            acc.count("leftmost_reference_machine_validations", 1);
+            if got != exp {
+                eprintln!("MACHINERY: the leftmost reference machine disagrees with the brute-force oracle: kind {} patterns {} haystack {:?}: {:?} vs {:?}", k.name(), show_pats(&ctx.pats), show(hay), got, exp);
+                std::process::exit(2);
+            }
+        }
         if acc.evals % 64 == 0 {
             // the linear-time oracles used for long haystacks are validated here
             if !oracle::fast_oracles_agree(&occ, hay.len()) {
@@ -536,4 +555,50 @@ pub fn replay(case: &Value) -> bool {
         }
     }
     failed
+}
+
+/// C04: removing the patterns that have an earlier-registered proper prefix (keeping the values of
+/// the others) must not change any result, and such a pattern is never reported. No hand-written
+/// expectation is involved: two real automata are compared on every haystack.
+pub fn shadow_differential(prop: &str, ctx: &SeqCtx, variants: &[Variant], acc: &mut Acc) {
+    let n = ctx.pats.len();
+    let shadowed: Vec<bool> = (0..n)
+        .map(|i| (0..i).any(|j| ctx.pats[i].len() > ctx.pats[j].len() && ctx.pats[i].starts_with(&ctx.pats[j])))
+        .collect();
+    if !shadowed.iter().any(|&x| x) {
+        return;
+    }
+    let keep: Vec<usize> = (0..n).filter(|&i| !shadowed[i]).collect();
+    let kp: Vec<Vec<u8>> = keep.iter().map(|&i| ctx.pats[i].clone()).collect();
+    let kv: Vec<u32> = keep.iter().map(|&i| i as u32).collect();
+    for &variant in variants {
+        if variant == Variant::Char && !ctx.emb.utf8 {
+            continue;
+        }
+        let cfg = Cfg::new(variant, Kind::LF, None, Entry::Builder);
+        set_case(prop, "enum", case_json(&cfg, &ctx.pats, None));
+        let Some(full) = build_or_violate(prop, "enum", cfg, &ctx.pats, None, acc) else {
+            continue;
+        };
+        let Some(reduced) = build_or_violate(prop, "enum", cfg, &kp, Some(&kv), acc) else {
+            continue;
+        };
+        acc.count("shadow_differential_pairs", 1);
+        ctx.for_each_hay(|hay| {
+            let a = full.auto.run(Method::Lm, hay);
+            let b = reduced.auto.run(Method::Lm, hay);
+            acc.traces += 1;
+            if a != b || a.iter().any(|m| shadowed[m.2 as usize]) {
+                let mut c = case_json(&cfg, &ctx.pats, None);
+                let o = c.as_object_mut().unwrap();
+                o.insert("haystack".into(), json!(hex(hay)));
+                o.insert("method".into(), json!(Method::Lm.name()));
+                o.insert("expected".into(), ms_json(&b));
+                o.insert("got".into(), ms_json(&a));
+                acc.violate(prop, "enum",
+                    format!("leftmost-first: patterns {} on {:?} give {:?}; without the patterns that have an earlier-registered proper prefix the result is {:?} (a shadowed pattern is reported or changes the result)",
+                        show_pats(&ctx.pats), show(hay), a, b), c);
+            }
+        });
+    }
 }
